@@ -43,13 +43,13 @@ ALL_KINDS = ['word', 'word', 'atom', 'unk', 'unkarg', 'unkarg2', 'label', 'index
              'theorem', 'tikz', 'usermac', 'usermac2', 'usermacopt', 'usermacoptonly', 'defmac', 'latexname', 'texorpdf', 'framebox',
              'unkenv', 'figure', 'minipage', 'vanish', 'hspace', 'phantom', 'quad', 'newline', 'group',
              'textbackslash', 'gls', 'removed_ext', 'twice_ext', 'mathtext', 'footcite', 'accent', 'lstlisting',
-             'includegraphics', 'emph', 'par']
+             'includegraphics', 'emph', 'par', 'cref']
 
 ALL_PKGS = {'amsmath', 'amsthm', 'babel', 'biblatex', 'circuitikz', 'geometry', 'glossaries', 'graphicx',
             'hyperref', 'listings', 'mathtools', 'pgfplots', 'tikz', 'xcolor', 'xspace'}
 KIND_PKG = {'textcolor': 'xcolor', 'href': 'hyperref', 'texorpdf': 'hyperref', 'tikz': 'tikz',
             'lstlisting': 'listings', 'gls': 'glossaries', 'footcite': 'biblatex', 'proof': 'amsthm',
-            'includegraphics': 'graphicx', 'removed_ext': 'ext', 'twice_ext': 'ext'}
+            'includegraphics': 'graphicx', 'removed_ext': 'ext', 'twice_ext': 'ext', 'cref': 'cleveref'}
 PACK_CHOICES = ['*', '*', '*', '*', '', '', 'amsmath,amsthm', 'xcolor,hyperref,graphicx', 'biblatex,glossaries',
                 'tikz,listings,circuitikz', 'amsmath,xcolor,biblatex', '*,.yvm.ext']
 
@@ -61,6 +61,8 @@ def pkgs_of(pack):
             out |= ALL_PKGS
         elif p == '.yvm.ext':
             out.add('ext')
+        elif p == 'cleveref':
+            out.add('cleveref')
         elif p:
             out.add(p)
     return out
@@ -68,7 +70,7 @@ def pkgs_of(pack):
 
 HEAD_FORBIDDEN = {'display', 'enumerate', 'section', 'proof', 'itemize', 'tabular', 'tikz', 'theorem', 'itemlab',
                   'verbatim', 'figure', 'minipage', 'defmac', 'removed_ext', 'unkenv', 'lstlisting', 'par'}
-SIDE_EFFECTS = {'footnote', 'caption', 'inline', 'usermac', 'usermac2', 'usermacopt', 'usermacoptonly', 'gls',
+SIDE_EFFECTS = {'footnote', 'caption', 'inline', 'usermac', 'usermac2', 'usermacopt', 'usermacoptonly', 'gls', 'cref',
                 'footcite', 'twice_ext', 'mathtext'}
 # inside an argument that is duplicated by a macro (twice_ext): nothing with side effects or counters
 TWICE_FORBIDDEN = HEAD_FORBIDDEN | SIDE_EFFECTS | {'ref', 'cite', 'citeopt'}
@@ -100,6 +102,7 @@ class Gen:
         self.macros = []            # user macros defined so far: (name, kind)
         self.need_ext = False
         self.glossary = glossary
+        self.cref = False
         self.theorems = []
         self.mid = 0
         self.safe_points = []       # offsets where a fault construct may be inserted (between nodes, brace level 0)
@@ -800,6 +803,22 @@ class Gen:
     def k_par(self):
         self.w('\\par' + self.rnd.choice([' ', '\n', '{}']))
 
+    def k_cref(self):
+        """cleveref with a sed file (poorman): literal and macro parts in the replacement; repeated uses"""
+        if not self.cref:
+            return self.word()
+        variants = [('\\cref{ylab}', 'ycrefig (7)'), ('\\Cref{ylab}', 'Ycrefig (7)'), ('\\cref{yl2}', 'ycreq (1) to (2)'),
+                    ('\\crefrange{ylab}{yl2}', 'ycrefigs (7) to (9)'), ('\\cref*{ylab}', 'ycrstar LaTeX (7)')]
+        for rep in range(2 if self.rnd.random() < .4 else 1):
+            if rep:
+                self.w(' ')
+                self.word()
+                self.w(' ')
+            m, out = self.rnd.choice(variants) if rep == 0 or self.rnd.random() < .5 else (m, out)
+            st = self.pos()
+            self.w(m)
+            self.gen(out, st + 1, self.pos(), 'cleveref')
+
     def k_gls(self):
         if not self.glossary:
             return self.word()
@@ -823,12 +842,17 @@ PREAMBLE = ('\\newcommand{\\ymaca}[1]{ybodya #1 ybodyb}\n'
             '\\newcommand{\\ymacb}[2]{#2 ybodyc #1}\n'
             '\\newcommand{\\ymacc}[2][ydflt]{ybodyd #1 #2}\n'
             '\\newcommand{\\ymacd}[1][ydfltb]{ybodye #1}\n')
+CREFSED = ('s/\\\\cref{ylab}/ycrefig~(7)/g\n'
+           's/\\\\Cref{ylab}/Ycrefig~(7)/g\n'
+           's/\\\\cref{yl2}/ycreq (1) to (2)/g\n'
+           's/\\\\crefrange{ylab}{yl2}/ycrefigs~(7) to~(9)/g\n'
+           's/\\\\cref\\*{ylab}/ycrstar \\\\LaTeX\\\\ (7)/g\n')
 GLSDEFS = ('\\gls@defglossaryentry{ylab}%\n{%\nname={yglsname},%\ntext={yglstext yglstwo},%\nplural={yglsplural yglsmany},%\n'
            'description={yglsdescr},%\nfirst={yglsfirst}%\n}%\n')
 
 
 def random_document(rnd, size=None, lang='en', kinds=None, max_depth=5, glossary_file=None, theorems=True,
-                    end_pressure=None, pack='*,.yvm.ext', preamble_extra='', preamble=True):
+                    end_pressure=None, pack='*,.yvm.ext', preamble_extra='', preamble=True, cref_file=None):
     pk = pkgs_of(pack)
     if 'glossaries' not in pk:
         glossary_file = None
@@ -843,6 +867,14 @@ def random_document(rnd, size=None, lang='en', kinds=None, max_depth=5, glossary
         g.w('\\newtheorem{ythm}{Ytheorem}\n\\newtheorem{ylem}[ythm]{Ylemma}\n')
     if glossary_file:
         g.w('\\LTinput{' + glossary_file + '}\n')
+        if rnd.random() < .3:
+            # loading the package again with other options must not forget the database
+            g.w('\\usepackage[acronym]{glossaries}\n')
+    if cref_file and 'xcolor' in pk and 'hyperref' in pk and 'amsmath' in pk and rnd.random() < .5:
+        # (only together with the full package set; cleveref itself is loaded by \\usepackage[poorman])
+        g.pkgs.add('cleveref')
+        g.w('\\usepackage[poorman]{cleveref}\\YYCleverefInput{' + cref_file + '}\n')
+        g.cref = True
     g.body_start = g.pos()
     g.seq(size or rnd.randint(2, 8))
     if end_pressure is None:
